@@ -11,8 +11,8 @@ import Tup.Model.UploadInfo
   * `PState`   – "which block comes next" + the request's constants and choices. For `get_id` **no
                  data read from the database is carried from one block to the next** (in the Python
                  `atime`, `namespace`, `begin/end`, `subspace_size` are functions of the arguments and
-                 the clock value taken before the first block); the read-only `needs_uploading` /
-                 `get_upload_info` do carry what they read (a description, an upload row);
+                 the clock value taken before the first block); the read-only calls are one block each
+                 (`needs_uploading` / `get_upload_info` read inside one `BEGIN … COMMIT` read transaction);
   * `pstep`    – runs exactly one block: `PState → Db → Except Err (PState × Db)`;
   * `Sys`      – `procs : List PState` + the shared `db`; `sysStep st i` lets process `i` run one
                  block; a block that raises is rolled back (database unchanged) and its process ends
@@ -34,8 +34,8 @@ inductive Request
   | cleanup (s : Space) (u : Sub) (maxIds : Nat) (removed : List Nat)
   | mark (id : Nat) (term : String) (size time : Nat)
   | cleanupUploads (n : Nat) (kept : List (Nat × String))
-  | needs (id : Nat) (term : String) (thr : Thresholds) (now : Nat)   -- `needs_uploading`: 3 reads
-  | uploadInfo (id : Nat) (term : String)                             -- `get_upload_info`: 2 reads
+  | needs (id : Nat) (term : String) (thr : Thresholds) (now : Nat)   -- `needs_uploading`: 1 read transaction
+  | uploadInfo (id : Nat) (term : String)                             -- `get_upload_info`: 1 read transaction
   | info (id : Nat)                                                   -- `get_info`: 1 read
   | count (s : Option Space) (u : Sub)                                -- `count`: 1 read, or 5 summed
 deriving Repr, Inhabited
@@ -69,11 +69,17 @@ inductive PState
   | cleanup (s : Space) (u : Sub) (maxIds : Nat) (removed : List Nat)
   | mark (id : Nat) (term : String) (size time : Nat)
   | cleanupUploads (n : Nat) (kept : List (Nat × String))
+  /-- `needs_uploading`: ONE read transaction `BEGIN; get_info; get_upload_info; COMMIT` (a WAL read
+      transaction sees one snapshot — trusted like the other blocks) -/
+  | needs (id : Nat) (term : String) (thr : Thresholds) (now : Nat)
+  /-- stand-alone `get_upload_info`: ONE read transaction around its two `SELECT`s -/
+  | uinfo (id : Nat) (term : String)
+  /-- PRE-FIX decomposition of `needs_uploading` (three separate autocommit reads). Not reachable from
+      `Request.start`; kept only so that the counter-example `C03.prefix_needs_uploading_not_atomic` can be
+      run. These are read-only states, so every theorem about arbitrary `procs` covers them too. -/
   | needsInfo (id : Nat) (term : String) (thr : Thresholds) (now : Nat)
   | needsRow (id : Nat) (term : String) (thr : Thresholds) (now : Nat) (desc : String)
   | needsAgo (id : Nat) (term : String) (thr : Thresholds) (now : Nat) (desc : String) (r : URow)
-  | uinfoRow (id : Nat) (term : String)
-  | uinfoAgo (id : Nat) (term : String) (r : URow)
   | info (id : Nat)
   | count (todo : List Space) (u : Sub) (acc : Nat)
   | finished (r : Result)
@@ -86,8 +92,8 @@ def Request.start : Request → PState
   | .cleanup s u m removed => .cleanup s u m removed
   | .mark id term size time => .mark id term size time
   | .cleanupUploads n kept => .cleanupUploads n kept
-  | .needs id term thr now => .needsInfo id term thr now
-  | .uploadInfo id term => .uinfoRow id term
+  | .needs id term thr now => .needs id term thr now
+  | .uploadInfo id term => .uinfo id term
   | .info id => .info id
   | .count (some s) u => .count [s] u 0
   | .count none u => .count Space.all u 0
@@ -158,6 +164,11 @@ def pstepG (sb : Req → Nat → Nat → List Nat → Db → Except Err (Db × S
     match Tup.cleanupUploads db n kept with
     | .error e => .error e
     | .ok db' => .ok (.finished .unit, db')
+  | .needs id term thr now =>
+    match needsUploading db id term thr now with
+    | .error e => .error e
+    | .ok b => .ok (.finished (.bool b), db)
+  | .uinfo id term => .ok (.finished (.uinfo (getUploadInfo db id term)), db)
   | .needsInfo id term thr now =>
     match getInfo db id with
     | .error e => .error e
@@ -170,17 +181,13 @@ def pstepG (sb : Req → Nat → Nat → List Nat → Db → Except Err (Db × S
   | .needsAgo id term thr now desc r =>
     let ui := mkUploadInfo id term r (uploadAgo db term r.time)
     .ok (.finished (.bool (ui.desc != desc || ui.needsUploading thr now)), db)
-  | .uinfoRow id term =>
-    match uploadRow db id term with
-    | none => .ok (.finished (.uinfo none), db)
-    | some r => .ok (.uinfoAgo id term r, db)
-  | .uinfoAgo id term r => .ok (.finished (.uinfo (some (mkUploadInfo id term r (uploadAgo db term r.time)))), db)
   | .info id =>
     match getInfo db id with
     | .error e => .error e
     | .ok r => .ok (.finished (.row r), db)
   | .count [] _ acc => .ok (.finished (.nat acc), db)
-  | .count (s :: todo) u acc => .ok (.count todo u (acc + countSpace db s u), db)
+  | .count [s] u acc => .ok (.finished (.nat (acc + countSpace db s u)), db)
+  | .count (s :: s' :: todo) u acc => .ok (.count (s' :: todo) u (acc + countSpace db s u), db)
   | .finished r => .ok (.finished r, db)
 
 /-- One atomic block of the code as it is. -/
@@ -325,7 +332,6 @@ def PState.remaining : PState → Nat
   | .getCleanup _ _ _ _ fs _ _ _ => 2 * fs.length + 2
   | .needsInfo _ _ _ _ => 3
   | .needsRow _ _ _ _ _ => 2
-  | .uinfoRow _ _ => 2
   | .count todo _ _ => todo.length + 1
   | .finished _ => 0
   | _ => 1
@@ -334,7 +340,7 @@ def PState.remaining : PState → Nat
 
 /-- read-only continuations (and `finished`) -/
 def isRead : PState → Bool
-  | .needsInfo _ _ _ _ | .needsRow _ _ _ _ _ | .needsAgo _ _ _ _ _ _ | .uinfoRow _ _ | .uinfoAgo _ _ _
+  | .needs _ _ _ _ | .uinfo _ _ | .needsInfo _ _ _ _ | .needsRow _ _ _ _ _ | .needsAgo _ _ _ _ _ _
   | .info _ | .count _ _ _ | .finished _ => true
   | _ => false
 
@@ -360,7 +366,7 @@ def Result.proper : Result → Bool
 
 /-- the id argument of the calls that start with `IDSpace.from_id(id)` -/
 def PState.idArg : PState → Option Nat
-  | .set id _ _ | .del id | .mark id _ _ _ | .needsInfo id _ _ _ | .info id => some id
+  | .set id _ _ | .del id | .mark id _ _ _ | .needs id _ _ _ | .needsInfo id _ _ _ | .info id => some id
   | _ => none
 
 /-- the ids bound to `req.desc` in `(req.space, req.sub)` -/
@@ -375,6 +381,11 @@ def dbAt (cfg : Cfg) (db0 : Db) (lin : List LinOp) (k : Nat) : Db := run cfg ((l
 def Undisturbed (cfg : Cfg) (req : Req) (db0 : Db) (lin : List LinOp) : Prop :=
   ∀ k e, lin[k]? = some e → (∀ now ch, e.op ≠ .get req now ch) →
     dIds req (dbAt cfg db0 lin (k + 1)) = dIds req (dbAt cfg db0 lin k)
+
+/-- the database left behind when process `i` dies after completing `k` of its blocks while nobody else
+    moves (a block that was open at the moment of death is rolled back by sqlite) -/
+def crashDb (cfg : Cfg) (procs : List PState) (db : Db) (i k : Nat) : Db :=
+  (runSched cfg ⟨procs, db⟩ (List.replicate k i)).db
 
 /-! ### the pre-fix sampling block (D8), kept only for the counter-example in `Props/C03.lean` -/
 
